@@ -118,6 +118,8 @@ func sampleTyped(rng *rand.Rand, pkg CorpusPkg, mode Mode, i int) CScenario {
 		PoolPolicy: rng.Intn(3), Poison: rng.Intn(4) != 0, MapPolicy: []int{2, 3, 4}[rng.Intn(3)],
 		// half of the scenarios mount the server under a path prefix and give the client the matching base URL
 		Prefix: []string{"", "", "/api/v1", "/x"}[rng.Intn(4)],
+		// half of the scenarios override the server URL per call, all calls with one URL value the caller owns
+		Override: rng.Intn(2) == 0,
 	}
 	switch rng.Intn(4) {
 	case 0:
@@ -639,6 +641,9 @@ func (e *Engine) checkTyped(c *core.Ctx, id string) ([]core.Violation, map[strin
 					}
 				}
 				eval(cr, true)
+			}
+			if r.InputChanged != "" && (id == "C19" || id == "C01") {
+				ps = append(ps, failure{i, problem{"a value the caller owns and passes in is not modified", clip(r.InputChanged, 600), "typed/caller input modified/" + pkg}, nil})
 			}
 			if id == "C19" && r.Deadlock != "" {
 				ps = append(ps, failure{i, problem{"no task blocks forever (bubble deadlock)", clip(r.Deadlock, 1200), "typed/deadlock/" + pkg}, nil})
